@@ -1,0 +1,47 @@
+//go:build verif
+
+// Contracts for package search, checked by /verif/bin/govc (comment-only file).
+package search
+
+//@ fileprops C16
+
+// fedCount: number of hits handed to an aggregation bucket; hitsSeen: number of hits a searcher returned.
+//@ ghost var fedCount int
+//@ ghost var hitsSeen int
+//@ ghost var lastFed ref
+
+// feeding a hit to a bucket (the calculators below it are verified separately)
+//@ func Bucket.Consume
+//@   props C16 C09
+//@   trusted
+//@   modifies fedCount, lastFed
+//@   effect fedCount == old(fedCount) + 1 && lastFed == d
+
+//@ func Collectible.Next(recv, ctx) (dm, err)
+//@   interface
+//@   props C16 C09
+//@   modifies hitsSeen
+//@   effect hitsSeen == old(hitsSeen) + ite(dm != nil && err == nil, 1, 0)
+
+// helpers that do not touch the ghost counters: treated as black boxes by the collectors
+//@ func DocumentMatch.LoadDocumentValues
+//@   props C16 C09
+//@   opaque
+//@ func SortOrder.Compute
+//@   props C16 C09
+//@   opaque
+//@ func SortOrder.Compare
+//@   props C16 C09
+//@   opaque
+//@ func DocumentMatchPool.Put
+//@   props C16 C09
+//@   opaque
+//@ func NewSearchContext
+//@   props C16 C09
+//@   opaque
+//@ func NewBucket
+//@   props C16 C09
+//@   opaque
+//@ func Bucket.Finish
+//@   props C16 C09
+//@   opaque
